@@ -182,6 +182,7 @@ func ulpTau(m float64) float64 {
 
 func checkC08(ctx *Ctx, rig *c08Rig, c *c08Case) {
 	configuration.CurrentConfig.TempRollingWindowSize = c.Window
+	configuration.CurrentConfig.RpmRollingWindowSize = 37 // a different, valid value: only the temperature window counts here
 	s := rig.sensor
 	s.SetMovingAvg(c.Init)
 	lo, hi := c.Init, c.Init
